@@ -120,10 +120,8 @@ struct lifetime_monitor : public expectation
     sequences->validate(severity::nonfatal, call_name, loc);
 
     sequences->increment_call();
-    if (sequences->is_satisfied())
-    {
-      sequences->retire_predecessors();
-    }
+    sequences->retire_predecessors();
+    sequences->retire();
   }
 
   template <typename ... T>
